@@ -42,7 +42,7 @@ structure Mon where
   sacksI : List Pos := []
   /-- last acked position of this incarnation (the reopen position before the first ack) -/
   hi : Nat := 0
-  /-- 0: running, 1: Teardown called, 2: plugin torn down, 3: Teardown returned nil -/
+  /-- 0: running, 1: Teardown called, 2: plugin torn down, 3: Teardown returned, 4: WaitPersisted returned -/
   td : Nat := 0
   ptd : Nat := 0
   bad : Option String := none
@@ -71,6 +71,9 @@ def monStep (strictStop : Bool) (m : Mon) : Obs → Mon
     let m := flag m (pos.isSome || m.committed == 0) "C02:store-became-empty"
     let m := flag m (optN pos ≤ m.handledMax) "C03:stored-position-past-unhandled-record"
     let m := flag m (reopen == pos) "C03:snapshot-reopens-at-other-position"
+    -- C03/C06: `WaitPersisted` is the durability barrier of a stopped pipeline (its connectors may be
+    -- re-created once it returned): no write of the stopped incarnation may land after it
+    let m := flag m (m.td != 4) "C03:commit-after-durability-barrier"
     { m with committed := optN pos }
   | .ackRet => m
   | .flushFail _ => m
@@ -96,7 +99,7 @@ def monStep (strictStop : Bool) (m : Mon) : Obs → Mon
       let m := flag m (m.committed == m.hi) "C06:stored-position-not-last-acked-at-stop"
       { m with td := 3 }
     else { m with td := 3 }
-  | .waited => m
+  | .waited => { m with td := 4 }
   | .waitHang => flag m (!strictStop) "C06:stop-and-wait-did-not-complete"
   | .crash => m
   | .reopen pos =>
